@@ -180,7 +180,11 @@ class SocketServer_Multiplex(object):
             # other error occurred, close the connection, but also log a warning
             ex_t, ex_v, ex_tb = sys.exc_info()
             tb = errors.format_traceback(ex_t, ex_v, ex_tb)
-            msg = "error during handleRequest: %s; %s" % (ex_v, "".join(tb))
+            try:
+                msg = "error during handleRequest: %s; %s" % (ex_v, "".join(tb))
+            except Exception:
+                # the exception can't even be converted to text (its __str__ fails): that must not end the server loop
+                msg = "error during handleRequest: %s; %s" % (ex_t.__name__, "".join(tb))
             log.warning(msg)
             return False
 
